@@ -113,6 +113,7 @@ func props() map[string]Prop {
 				{Name: "mode", Pkg: "internal/upload", Harness: "internal_upload", Run: "^TestVerifC02Mode$", Instrument: uploadInstr, Timeout: 30 * time.Minute},
 				{Name: "public", Pkg: "counter", Harness: "counter_public", Run: "^TestVerifPublic$", Timeout: 30 * time.Minute},
 				{Name: "rotate", Pkg: "internal/counter", Harness: "internal_counter", Run: "^TestVerifC02Rotate$", Instrument: counterInstr, Timeout: 30 * time.Minute},
+				{Name: "viarun", Pkg: "internal/upload", Harness: "internal_upload", Run: "^TestVerifC02Public$", Instrument: uploadInstr, Timeout: 30 * time.Minute},
 			},
 			Assume: []string{"start times are passed explicitly (virtual calendar 2019-2031)", "for a process that is already running when the mode file changes only the creation of counter files is judged (the API reads the mode file when it opens or rotates a file, not on every increment)"},
 		},
